@@ -39,6 +39,9 @@ fn install_panic_hook() {
         };
         let location = info.location().map(|l| format!("{}:{}", l.file(), l.line())).unwrap_or_default();
         let in_sut = world::IN_SUT.with(|c| c.get());
+        if !world::IS_RUN_THREAD.with(|c| c.get()) {
+            eprintln!("HARNESS PANIC: {msg} at {location}");
+        }
         LAST_PANIC.with(|p| *p.borrow_mut() = Some(exec::PanicInfo { msg, location, in_sut }));
     }));
 }
